@@ -342,7 +342,8 @@ def name_final_mismatch(line, comp, reachable):
 def diagnose_all(ctx, rejected):
     """rejected: [(line, [components no order explains])] -> {(i, comp): (signature, what, detail)}"""
     lines = [dict(l, comps=comps) for l, comps in rejected]
-    acc = validate(ctx, lines, realtime=False, checkfinal=False, label="diagnosis: final states reachable in %d rejected histories" % len(lines))
+    # (naming only: the final states reachable under the real-time order are enough to locate the difference)
+    acc = validate(ctx, lines, realtime=True, checkfinal=False, label="diagnosis: final states reachable in %d rejected histories" % len(lines))
     out = {}
     for l, comps in rejected:
         for comp in comps:
@@ -374,7 +375,7 @@ def plan_of(ctx):
     if ctx.tier == "quick":
         #        clients, calls, walks per worker (x8)
         return [(2, 10, 5), (3, 9, 6), (4, 8, 6), (6, 6, 5), (8, 5, 4)], 200, 70
-    return [(2, 12, 65), (3, 10, 72), (4, 8, 72), (6, 6, 68), (8, 5, 68)], 2400, 300
+    return [(2, 12, 50), (3, 10, 54), (4, 8, 54), (6, 6, 52), (8, 5, 52)], 1800, 240
 
 
 def run(ctx):
